@@ -152,6 +152,9 @@ pub fn check_case(c: &Case, info: &mut CaseInfo) -> Result<(), Failure> {
         Ok(Err(e)) => return Err(fail(&format!("build-error:{}", errs::root_kind(&e)), format!("build failed: {:?}", e))),
         Ok(Ok(b)) => b,
     };
+    if bytes.len() > 65_536 {
+        info.label("file>64KiB");
+    }
     info.sample = Some(json!({"pages": c.pages.len(), "file_len": bytes.len(), "ops_per_page": c.pages.iter().map(|p| p.ops.len()).collect::<Vec<_>>(), "info": c.info.is_some()}));
     let fail = |key: &str, msg: String| Failure::new(format!("c10:{}", key), msg, json!({"case_debug": format!("{:?}", c).chars().take(6000).collect::<String>(), "file": Bytes::new(&bytes[..])}));
     // (B) independent structural check
@@ -306,7 +309,31 @@ fn info_s() -> impl Strategy<Value = InfoSpec> {
     (s(), s(), s(), s(), s(), s(), proptest::option::weighted(0.6, date_s()), proptest::option::weighted(0.4, date_s()), proptest::option::weighted(0.4, 0u8..3)).prop_map(|(title, author, subject, keywords, creator, producer, creation, modified, trapped)| InfoSpec { title, author, subject, keywords, creator, producer, creation, modified, trapped })
 }
 pub fn case_strategy() -> impl Strategy<Value = Case> {
-    (proptest::collection::vec(page(), 0..7), 0usize..4, proptest::option::weighted(0.6, info_s()), any::<bool>()).prop_map(|(pages, nfonts, info, cached)| Case { pages, nfonts, info, cached })
+    // the builder imposes no size limit: some documents are large (many pages, long content streams) so that offsets
+    // and object numbers pass the one- and two-byte field widths of the cross-reference stream
+    let bulk = prop_oneof![12 => Just((1usize, 1usize)), 2 => (2usize..40, 1usize..4), 1 => (40usize..400, Just(1usize)), 2 => (1usize..3, 50usize..3000)];
+    (proptest::collection::vec(page(), 0..7), 0usize..4, proptest::option::weighted(0.6, info_s()), any::<bool>(), bulk).prop_map(|(pages, nfonts, info, cached, (pr, or))| {
+        let mut pages = pages;
+        if let Some(p0) = pages.first_mut() {
+            if or > 1 && !p0.ops.is_empty() {
+                let base = p0.ops.clone();
+                let reps = or.min(20_000 / base.len().max(1)).max(1);
+                for _ in 1..reps {
+                    p0.ops.extend(base.iter().cloned());
+                }
+            }
+        }
+        if pr > 1 && !pages.is_empty() {
+            let base = pages.clone();
+            for _ in 1..pr {
+                pages.extend(base.iter().cloned());
+                if pages.len() >= 500 {
+                    break;
+                }
+            }
+        }
+        Case { pages, nfonts, info, cached }
+    })
 }
 
 pub fn replay(_ctx: &Ctx, _check: &str, art: &serde_json::Value, info: &mut CaseInfo) -> Result<(), Failure> {
@@ -329,7 +356,7 @@ pub fn replay(_ctx: &Ctx, _check: &str, art: &serde_json::Value, info: &mut Case
 pub fn run(ctx: &Ctx) {
     let cases = ctx.tier.pick(1_500, 80_000);
     ctx.run_cases("built-documents", cases, case_strategy, |c, info| {
-        info.label(format!("pages/{}", c.pages.len().min(3)));
+        info.label(format!("pages/{}", if c.pages.len() > 50 { "50+".to_string() } else { c.pages.len().min(3).to_string() }));
         if c.info.is_some() {
             info.label("info-present");
         }
